@@ -826,6 +826,11 @@ func (c *Contract) prepare() error {
 				}
 				ml.Base = item[:j]
 				rng := item[j+1 : len(item)-1]
+				if strings.TrimSpace(rng) == "*" {
+					// base[*]: the whole backing array of the slice, whatever its bounds
+					ml.Kind = "whole"
+					break
+				}
 				k := indexTop(rng, "..")
 				if k < 0 {
 					return fmt.Errorf("modifies %q: want base[lo..hi] or base[..]", item)
